@@ -75,6 +75,7 @@ func zzvSprintf(format string, a ...any) string {
 func zzvReset() {
 	zzvFmtVals = nil
 	zzvCRn = 0
+	zzvBits = 63
 }
 
 const (
@@ -643,10 +644,12 @@ func zzvCheck(q *zzvRequest, size int64, w *zzvRW) {
 	verifrt.Reach("end")
 }
 
-// zzvLimit is the exclusive upper bound of the file size and of the numbers in the header: 2^BITS
-// (tier parameter; 63 = every non-negative int64).
+// zzvLimit is the exclusive upper bound of the file size and of the numbers in the header: 2^zzvBits
+// (63 = every non-negative int64; lists of three specs use the tier parameter BITS3, see zzvMultiForms).
+var zzvBits = 63
+
 func zzvLimit() int64 {
-	bits := verifrt.Param("BITS", 63)
+	bits := zzvBits
 	if bits >= 63 {
 		return -1
 	}
@@ -702,7 +705,10 @@ func HarnessC30Precond() {
 // zzvMultiForms: lists of two draw from the first FORMS forms, longer lists from the first FORMS3.
 func zzvMultiForms(ns int) int {
 	f := verifrt.Param("FORMS", zzvNForms)
+	zzvBits = 63
 	if ns > 2 {
+		// the sums of three clipped lengths over full 64-bit numbers stall the solver
+		zzvBits = verifrt.Param("BITS3", 63)
 		return verifrt.Param("FORMS3", f)
 	}
 	return f
